@@ -576,6 +576,8 @@ def register(lib):
         if isinstance(b, bytes):
             return int.from_bytes(b, byteorder, signed=signed)
         n = b.length
+        if not is_sym(n) and n > 8 and not signed:
+            return BigIntOfBytes(b, byteorder)       # wide unsigned integers are opaque: only format(v, 'x') is understood
         if is_sym(n) or n not in (2, 4):
             raise Unsupported('int.from_bytes length')
         fmt = ('<' if byteorder == 'little' else '>') + {2: 'H', 4: 'I'}[n]
@@ -583,6 +585,15 @@ def register(lib):
             fmt = fmt.lower()
         return decode_word(b, fmt)
     E['int.from_bytes'] = int_from_bytes
+
+    def builtin_format(I, v, spec=''):
+        v = untag(v)
+        if isinstance(v, BigIntOfBytes) and spec == 'x' and v.byteorder == 'big':
+            return SymStr('hexint', v.b)         # hexadecimal digits WITHOUT leading zeros: not bytes.hex() (two digits per byte)
+        if isinstance(v, (int, float, str)) and not is_sym(v):
+            return format(v, spec)
+        raise Unsupported(f'format({type(v).__name__}, {spec!r})')
+    E['format'] = builtin_format
 
     def int_to_bytes(I, v, length=1, byteorder='big', signed=False):
         fmt = ('<' if byteorder == 'little' else '>') + {1: 'B', 2: 'H', 4: 'I'}[length]
@@ -638,6 +649,12 @@ class NPScalar:
     def __init__(self, value, dtype):
         self.value = value
         self.dtype = dtype
+
+
+class BigIntOfBytes:
+    """int.from_bytes(b, order) of more than 8 symbolic bytes"""
+    def __init__(self, b, byteorder):
+        self.b, self.byteorder = b, byteorder
 
 
 class SymStr:
